@@ -150,7 +150,12 @@ def tlc(module, cfg, env=None, workers=1, timeout=600, extra=None, dfs=False, he
         jopts.append("-Xmx%s" % heap)
     if dfs:
         jopts.append("-Dtlc2.tool.queue.IStateQueue=StateDeque")
-    cmd = ["java"] + jopts + ["-cp", TLA_JAR + ":" + COMMUNITY, "tlc2.TLC",
+    # run in a scratch copy of spec/: TLC litters its working directory
+    if cwd is None:
+        cwd = os.path.join(scratch(), "spec")
+        if not os.path.isdir(cwd):
+            shutil.copytree(SPEC, cwd)
+    cmd = ["java"] + jopts + ["-cp", TLA_JAR + ":" + COMMUNITY, "tlc2.TLC", "-noGenerateSpecTE",
                               "-metadir", md, "-workers", str(workers), "-config", cfg]
     if not deadlock:
         cmd.append("-deadlock")
@@ -167,7 +172,7 @@ def tlc(module, cfg, env=None, workers=1, timeout=600, extra=None, dfs=False, he
     cmd.append(module)
     t = time.time()
     try:
-        rc, out = sh(cmd, cwd=cwd or SPEC, env=e, timeout=timeout, check=False)
+        rc, out = sh(cmd, cwd=cwd, env=e, timeout=timeout, check=False)
     finally:
         shutil.rmtree(md, ignore_errors=True)
     r = TLCResult(rc, out)
